@@ -461,15 +461,6 @@ PUML_TABLE: dict[str, list[tuple]] = {
          [("cmp", "P:parent_graph_node", "Is", "None", "0")],
          [("cmp", "P:sub_graph", "Is", "None", "1")], ""),
     ],
-    "PUMLGraph.add_parent_graph_node_to_node_ref": [
-        ("the first diagram node of a model node opens its list", "store",
-         "", "P:self.parent_graph_nodes_to_node_ref[P:parent_graph_node]",
-         ("[]",), [("cmp", "P:parent_graph_node", "In",
-                    "P:self.parent_graph_nodes_to_node_ref", "0")], [], ""),
-        ("every diagram node of a model node is listed under it", "call",
-         "append", "P:self.parent_graph_nodes_to_node_ref["
-         "P:parent_graph_node]", ("P:node_ref",), [], [], ""),
-    ],
     "PUMLEventNode.__init__": [
         ("the body of a loop node is kept", "store", "", "P:self.sub_graph",
          ("P:sub_graph",), [], [], ""),
